@@ -12,6 +12,8 @@ package main
 //	             or <trust domain>=@<key>;<key>..  a FEDERATED trust domain: its roots come from a SPIFFE bundle endpoint that
 //	             serves these JWK entries, fetched by the REAL spiffe.RetrieveSpiffeBundleRootCerts;
 //	             key = <use>:<cert>+<cert>..  use: x (x509-svid) j (jwt-svid) n (no use); cert: any CA of the fixture
+//	             or <trust domain>=@!500 (the endpoint always answers 500) | @!badurl (the configured endpoint is no URL) |
+//	             @!flaky;<key>;.. (the endpoint answers 503 once, then serves the keys: the fetch is retried)
 //	      leaf:  nocert | <issuer>|<san entries>|<time ok|expired|future>|<eku both|client|server|none>
 //	             issuer: R1 R2 R3 RX I1(by R1) I2(by R2) I3(by I1) IE(by R1, expired) INC(by R1, not a CA)
 //	      presented intermediates: list of I1 I2 I3 IE INC
@@ -58,6 +60,8 @@ type pkiCert struct {
 type pkiFixture struct {
 	bundle *httptest.Server    // SPIFFE bundle endpoint: /<root>+<root>.. serves those roots as x509-svid keys
 	cas    map[string]*pkiCert // R1 R2 R3 RX I1 I2 I3 IE INC
+	flaky  map[string]int      // bundle endpoint: requests seen per flaky path
+	modes  map[string]int      // how often the verifier was filled which way (evidence counters)
 	server tls.Certificate
 	serial int64
 }
@@ -68,7 +72,7 @@ var (
 )
 
 func newPKIFixture() (*pkiFixture, error) {
-	f := &pkiFixture{cas: map[string]*pkiCert{}, serial: 1000}
+	f := &pkiFixture{cas: map[string]*pkiCert{}, serial: 1000, flaky: map[string]int{}, modes: map[string]int{}}
 	now := time.Now()
 	for _, name := range pkiOrder {
 		key, err := ecdsa.GenerateKey(elliptic.P256(), rand.Reader)
@@ -120,6 +124,19 @@ func (f *pkiFixture) startBundleServer() error {
 	}
 	f.bundle = httptest.NewTLSServer(http.HandlerFunc(func(w http.ResponseWriter, r *http.Request) {
 		doc := jose.JSONWebKeySet{}
+		if strings.HasPrefix(r.URL.Path, "/e500/") {
+			http.Error(w, "bundle endpoint out of order", http.StatusInternalServerError)
+			return
+		}
+		if rest, ok := strings.CutPrefix(r.URL.Path, "/flaky/"); ok {
+			// unavailable on the first request of a fetch, fine on the retry
+			f.flaky[rest]++
+			if f.flaky[rest]%2 == 1 {
+				http.Error(w, "try again", http.StatusServiceUnavailable)
+				return
+			}
+			r.URL.Path = "/k/" + strings.SplitN(rest, "/", 2)[1]
+		}
 		if spec, ok := strings.CutPrefix(r.URL.Path, "/k/"); ok {
 			// an explicit list of JWK entries (hex of the pool's key list)
 			raw, _ := hex.DecodeString(spec)
@@ -169,6 +186,17 @@ func parseBundleKeys(spec string) []bundleKey {
 		out = append(out, key)
 	}
 	return out
+}
+
+// bundleFetch: how the endpoint of a federated pool behaves, and the keys it serves (when it does).
+func bundleFetch(spec string) (behaviour string, keys []bundleKey) {
+	switch {
+	case spec == "!500" || spec == "!badurl":
+		return spec[1:], nil
+	case strings.HasPrefix(spec, "!flaky"):
+		return "flaky", parseBundleKeys(strings.TrimPrefix(strings.TrimPrefix(spec, "!flaky"), ";"))
+	}
+	return "ok", parseBundleKeys(spec)
 }
 
 // bundleRoots states what a SPIFFE bundle contributes (independently of the code under test): the one
@@ -307,7 +335,18 @@ func (f *pkiFixture) handshake(pools []string, client *tls.Certificate) (state t
 			if _, dup := endpoints[td]; dup {
 				return state, false, false, errors.New("two bundle endpoints for one trust domain")
 			}
-			endpoints[td] = strings.TrimPrefix(f.bundle.URL, "https://") + "/k/" + hex.EncodeToString([]byte(keys))
+			base := strings.TrimPrefix(f.bundle.URL, "https://")
+			switch behaviour, _ := bundleFetch(keys); behaviour {
+			case "500":
+				endpoints[td] = base + "/e500/" + td
+			case "badurl":
+				endpoints[td] = "%zz" + base
+			case "flaky":
+				f.serial++
+				endpoints[td] = fmt.Sprintf("%s/flaky/%d/%s", base, f.serial, hex.EncodeToString([]byte(strings.TrimPrefix(strings.TrimPrefix(keys, "!flaky"), ";"))))
+			default:
+				endpoints[td] = base + "/k/" + hex.EncodeToString([]byte(keys))
+			}
 			continue
 		}
 		var certs []*x509.Certificate
@@ -318,6 +357,7 @@ func (f *pkiFixture) handshake(pools []string, client *tls.Certificate) (state t
 				pemBytes = append(pemBytes, pem.EncodeToMemory(&pem.Block{Type: "CERTIFICATE", Bytes: c.cert.Raw})...)
 			}
 		}
+		f.modes[[]string{"registration.AddMapping", "registration.AddMappingFromPEM", "registration.AddMappings", "registration.bundle-endpoint+AddMappings"}[mode]]++
 		switch mode {
 		case 0:
 			verifier.AddMapping(td, certs)
@@ -333,7 +373,17 @@ func (f *pkiFixture) handshake(pools []string, client *tls.Certificate) (state t
 	case federated:
 		pool := x509.NewCertPool()
 		pool.AddCert(f.bundle.Certificate())
-		fetched, err := spiffe.RetrieveSpiffeBundleRootCerts(endpoints, pool, 0)
+		f.modes["registration.bundle-endpoint+AddMappings"]++
+		// retried with back-off (50 ms, 100 ms, ...): an endpoint that is out of order for good is given up 120 ms after the
+		// first attempt; otherwise the budget is generous (a flaky endpoint answers on the first retry) so that a slow
+		// machine cannot turn a retry into a failure
+		budget := 30 * time.Second
+		for _, p := range pools {
+			if strings.HasSuffix(p, "=@!500") {
+				budget = 120 * time.Millisecond
+			}
+		}
+		fetched, err := spiffe.RetrieveSpiffeBundleRootCerts(endpoints, pool, budget)
 		if err != nil {
 			if os.Getenv("C09_DEBUG") != "" {
 				fmt.Fprintln(os.Stderr, "bundle:", err)
